@@ -453,6 +453,8 @@ pub fn gen_c01(r: &mut Rng) -> ScriptCase {
 pub fn gen_c02(r: &mut Rng) -> ScriptCase {
     let mut db = DbScript { engine: "mock".into(), ..Default::default() };
     let mut eff = Eff::default();
+    let threshold = *r.pick(&[0usize, 0, 0, 2, 5]);
+    eff.threshold = threshold;
     let mut text = String::new();
     let n = r.range(1, 12);
     let halt_at = if r.chance(1, 4) { Some(r.below(n)) } else { None };
@@ -502,8 +504,14 @@ pub fn gen_c02(r: &mut Rng) -> ScriptCase {
     } else {
         None
     };
-    let tag = format!("c02 halt={} second={}", halt_at.is_some(), text2.is_some());
-    ScriptCase { strict_cols: r.chance(1, 4), threshold: 0, labels, locals, text, text2, db, tag, ..Default::default() }
+    // labels added between the two scripts, a threshold set through the API
+    let labels2: Vec<String> = if text2.is_some() && r.chance(1, 3) {
+        LABELS.iter().filter(|l| !labels.contains(&l.to_string()) && r.chance(1, 2)).map(|l| l.to_string()).collect()
+    } else {
+        vec![]
+    };
+    let tag = format!("c02 halt={} second={} labels2={} api_threshold={}", halt_at.is_some(), text2.is_some(), labels2.len(), threshold);
+    ScriptCase { strict_cols: r.chance(1, 4), threshold, labels, locals, text, text2, labels2, db, tag, ..Default::default() }
 }
 
 /// C09: retry N (1..=maxn), outcome bit-vector `bits` (bit i = attempt i passes), record kind k
@@ -555,6 +563,18 @@ pub fn gen_c09(n: usize, bits: u32, kind: usize, backoff: &str, r: &mut Rng) -> 
             db.rules.push(("select bad".into(), ans));
             text.push_str(&format!("query error{}\nselect bad\n\n", retry));
         }
+        6 => {
+            // query under the strict column validator: a failing attempt is a column-type mismatch
+            // (even attempts) or a wrong value (odd attempts)
+            let ans = (0..n + 1)
+                .map(|i| Ans::Rows {
+                    types: if pass(i) || i % 2 == 1 { "I".into() } else { "T".into() },
+                    rows: vec![vec![if pass(i) || i % 2 == 0 { "7".to_string() } else { format!("{}", 100 + i) }]],
+                })
+                .collect();
+            db.rules.push(("select typed from t".into(), ans));
+            text.push_str(&format!("query I{}\nselect typed from t\n----\n7\n\n", retry));
+        }
         _ => {
             // system with stdout
             let ans = (0..n + 1)
@@ -574,7 +594,24 @@ pub fn gen_c09(n: usize, bits: u32, kind: usize, backoff: &str, r: &mut Rng) -> 
     }
     // a trailing record shows that execution continues (or not) after the retried one
     text.push_str("statement ok\nselect 'after'\n\n");
-    ScriptCase { text, db, tag: format!("c09 n={} bits={:b} kind={}", n, bits, kind), ..Default::default() }
+    ScriptCase { strict_cols: kind == 6, text, db, tag: format!("c09 n={} bits={:b} kind={}", n, bits, kind), ..Default::default() }
+}
+
+/// two retried records of different kinds one after the other on one runner: what the first one
+/// needed must not change what the second one gets
+pub fn gen_c09_pair(n1: usize, bits1: u32, k1: usize, n2: usize, bits2: u32, k2: usize, r: &mut Rng) -> ScriptCase {
+    let a = gen_c09(n1, bits1, k1, "0s", r);
+    let b = gen_c09(n2, bits2, k2, "1ms", r);
+    let mut db = a.db.clone();
+    db.rules.extend(b.db.rules.clone());
+    db.cmd_rules.extend(b.db.cmd_rules.clone());
+    ScriptCase {
+        strict_cols: a.strict_cols || b.strict_cols,
+        text: format!("{}{}", a.text, b.text),
+        db,
+        tag: format!("c09pair first=({} {:b} {}) second=({} {:b} {})", n1, bits1, k1, n2, bits2, k2),
+        ..Default::default()
+    }
 }
 
 /// C10: a result set in a given order under (query sort, file sort, result mode); the expectation
@@ -775,7 +812,24 @@ pub fn gen_c15(r: &mut Rng) -> ScriptCase {
         text.push_str("hash-threshold 1\n\nquery T\nselect two\n----\n2 values hashing to 6ddb4095eb719e2a9f0a3f95677d24e0\n\n");
         db.rules.push(("select two".into(), vec![Ans::Rows { types: "T".into(), rows: vec![vec!["1".into()], vec!["2".into()]] }]));
     }
-    ScriptCase { threshold: api_threshold, text, db, tag: format!("c15 thr={} count={}", threshold, count), ..Default::default() }
+    // the threshold (like every control) is a property of the runner: set in one script, it holds for
+    // the scripts run on the same runner afterwards
+    let (text, text2) = if r.chance(1, 3) {
+        match text.find("query ") {
+            Some(i) if i > 0 => (text[..i].to_string(), Some(text[i..].to_string())),
+            _ => (text, None),
+        }
+    } else {
+        (text, None)
+    };
+    ScriptCase {
+        threshold: api_threshold,
+        text,
+        text2,
+        db,
+        tag: format!("c15 thr={} count={}", threshold, count),
+        ..Default::default()
+    }
 }
 
 pub fn permutations<T: Clone>(xs: &[T]) -> Vec<Vec<T>> {
